@@ -6,8 +6,10 @@ pub mod c01;
 pub mod c02;
 pub mod c03;
 pub mod c04;
+pub mod c05;
+pub mod c08;
 
-pub const IDS: &[&str] = &["C01", "C02", "C03", "C04"];
+pub const IDS: &[&str] = &["C01", "C02", "C03", "C04", "C05", "C08"];
 
 macro_rules! dispatch {
     ($id:expr, $f:ident, $($arg:expr),*) => {
@@ -16,6 +18,8 @@ macro_rules! dispatch {
             "C02" => $f(&c02::C02, $($arg),*),
             "C03" => $f(&c03::C03, $($arg),*),
             "C04" => $f(&c04::C04, $($arg),*),
+            "C05" => $f(&c05::C05, $($arg),*),
+            "C08" => $f(&c08::C08, $($arg),*),
             other => {
                 eprintln!("unknown property {other}");
                 2
